@@ -166,6 +166,15 @@ Proof.
   rewrite Et. cbn [sp_ofZ]. ring.
 Qed.
 
+(** the modulo is idempotent (so the extra [% (2*pi)] before the final evaluation changes nothing) *)
+Lemma pol_modv_idem x m : sp_trunc_ok F K -> 0 < m -> pol_modv F K (pol_modv F K x m) m = pol_modv F K x m.
+Proof.
+  intros Htr Hm. destruct (pol_mod_range_thm F K HK x m Htr Hm) as [y [Hy [H0 H1]]].
+  assert (Hm0 : speqb K m 0 = false).
+  { destruct (sp_eqb_spec F K HK m 0) as [E0|]; [|reflexivity]. exfalso. apply (proj2 Hm). symmetry. exact E0. }
+  rewrite (pol_mod_modv F K _ _ Hm0) in Hy. injection Hy as <-. apply pol_modv_id; assumption.
+Qed.
+
 (* ------------------------------------------------------------------------------------------ *)
 (** * rigid rotation: d_r phi = omega r, d_theta phi = 0 *)
 Section Rigid.
